@@ -32,8 +32,9 @@ type Req struct {
 	// TwinDevOpt: the package is listed a second time, in devDependencies and optionalDependencies at once
 	// (npm), with the same requirement text.
 	TwinDevOpt bool `json:"twin,omitempty"`
-	// TwinAlias: the package is listed a second time under the alias x (x -> npm:pkg@same range): two distinct
-	// declarations of one version that share package and requirement text and differ only in the folder name.
+	// TwinAlias: the package is listed a second time, as a regular dependency under the alias x (x -> npm:pkg@same
+	// range): two distinct declarations of one version that share package and requirement text and differ in the
+	// folder name (and in the section, when the plain one is optional or dev).
 	TwinAlias bool `json:"twinalias,omitempty"`
 }
 
@@ -45,6 +46,7 @@ func (r Req) Expanded() []Req {
 	a, b := r, r
 	a.TwinAlias, b.TwinAlias = false, false
 	b.Alias = "x"
+	b.Opt, b.Dev, b.Scope = false, false, "" // the alias entry sits in "dependencies" whatever section the plain one is in
 	return []Req{a, b}
 }
 
